@@ -487,8 +487,9 @@ func (c *Client) PublishPredefined(topicID uint16, payload []byte, qos uint8, re
 	return c.publish(pkts1.TIT_PREDEFINED, topicID, qos, retain, payload)
 }
 
-// Ping sends a PING packet to the MQTT-SN gateway.
-func (c *Client) Ping() error {
+// startPing sends a PINGREQ packet and returns the transaction which waits for
+// the PINGRESP.
+func (c *Client) startPing() *pingTransaction {
 	transaction := newPingTransaction(c)
 	ping := pkts1.NewPingreq(nil)
 	c.transactions.StoreByType(pkts.PINGREQ, transaction)
@@ -496,6 +497,12 @@ func (c *Client) Ping() error {
 	if err := c.send(ping); err != nil {
 		transaction.Fail(err)
 	}
+	return transaction
+}
+
+// Ping sends a PING packet to the MQTT-SN gateway.
+func (c *Client) Ping() error {
+	transaction := c.startPing()
 	select {
 	case <-transaction.Done():
 		return transaction.Err()
